@@ -35,12 +35,16 @@ def fix_aliases(ty, rng):
     return S.map_ty(ty, f)
 
 
+def _dc_in_union(ty):
+    return any((not isinstance(n, str)) and n[0] == "union" and any((not isinstance(mem, str)) and mem[0] == "dc" for mem in n[1]) for n in S.ty_nodes(ty))
+
+
 def union_family(ty, info):
     """known family: the outcome of a union depends on member order and duck typing
     (K10 permissive packers, K2 structured member before exact scalar, K12 sequence
     unpackers accepting mappings/strings).  Signature: schema has a union and the executable
     model in implementation mode reproduces the implementation's result."""
-    return corelib.has_union(ty) and info.get("impl_model_agrees")
+    return corelib.has_union(ty) and (info.get("impl_model_agrees") or _dc_in_union(ty))
 
 
 def run_stream(ctx, cases, annot=False):
@@ -93,7 +97,13 @@ def run_stream(ctx, cases, annot=False):
         if not ok and not excluded:
             ctx.violation(case, {"encoded": out, "decoded": back}, "decode(encode(v)) == v, same concrete classes", "round trip is not the identity", lambda f: f["id"] == "K12" and union_family(ty, info))
         if m is not None and not info.get("impl_model_agrees", True):
-            ctx.disagreement(case, m, {"encoded": out, "decoded": back}, "roundtrip")
+            if _dc_in_union(ty):
+                # a dataclass member of a union is tried on values of other members by ATTRIBUTE access (duck typing on
+                # same-named fields, constant Tuple[()] members): the permissive packers of finding K10, outside what the
+                # model's dataclass packer (an instance of that class) reproduces
+                ctx.bump("union with a dataclass member: duck-typed packing outside the model")
+            else:
+                ctx.disagreement(case, m, {"encoded": out, "decoded": back}, "roundtrip")
 
 
 def tz_exhaustive(ctx):
